@@ -63,6 +63,11 @@ STMT_POS = [
 ]
 SCOPES = [
     '{B}',
+    'async def adoc_{N}():\n    """shared docstring text"""\n{B1}\nprint(adoc_{N}.__doc__)',
+    'async def adoc2_{N}(argument):\n    """shared docstring text"""\n    raise NotImplementedError("shared docstring text")',
+    'def sdoc_{N}():\n    """shared docstring text"""\n{B1}\nprint(sdoc_{N}.__doc__)',
+    'class CDoc_{N}:\n    """shared docstring text"""\n    text = "shared docstring text"\n    def method(self):\n        """shared docstring text"""\n{B2}\nprint(CDoc_{N}.__doc__, CDoc_{N}.method.__doc__)',
+    'def gdoc_{N}():\n    """shared docstring text"""\n    yield "shared docstring text"\nprint(gdoc_{N}.__doc__, list(gdoc_{N}()))',
     'def func_{N}():\n{B1}\nfunc_{N}()',
     'def outer_{N}():\n    def inner_{N}():\n{B2}\n    return inner_{N}()\nouter_{N}()',
     'def holder_{N}():\n    class Local_{N}:\n{B2}\n    return Local_{N}\nholder_{N}()',
